@@ -20,7 +20,7 @@ RULE = ('correspondence cases: type in UC/N/CD/UD/P/NB x (dyadic | general float
         'replayed against a parallel RandomState; Markov chains (alpha,beta in dyadics and general floats, both start states); '
         'deterministic demand lists / explicit disruption lists of length 0..7 (scalar too) replayed for periods None,0..3*len+2; '
         'oracle cases: per type parameter sets (reported mean/sd/cdf), lead times L=1..Lmax (L-fold convolution), probability '
-        'vectors summing to one within rounding / clearly not; statistical cases: n samples per parameter set. '
+        'vectors (short decimal / 1/k up to k=100 / normalised weights of length 20-100 / scipy pmf tables / sums perturbed by <= 5e-10) summing to one within 1e-9, or clearly not; SEQUENCES of 2-5 lead-time + mean/sd/cdf queries in one process that reuse demand_list / lo,hi / n,p / mean with other parameters changed and the same L, on fresh objects or one object mutated in place; statistical cases: n samples per parameter set. '
         'non-trivial = >=2 distinct sample values (random types), list longer than 1 replayed past its end (lists), both states '
         'visited (Markov), L>=2 (lead time), float sum != 1.0 exactly or non-dyadic entries (probability vectors); '
         'distinct = distinct (kind, parameters, seed).')
@@ -517,11 +517,11 @@ def irwin_hall_rec(y, n):
     return (y * irwin_hall_rec(y, n - 1) + (n - y) * irwin_hall_rec(y - 1, n - 1)) / n
 
 
-def check_reported(chk, c):
+def check_reported(chk, c, ds=None):
     """the mean / sd / cdf a DemandSource reports are those of the distribution object it exposes and of the declared law"""
     t = c['type']; site = 'DemandSource|%s|' % t
     try:
-        ds = mk_ds(c); dist = ds.demand_distribution; d = Decl(c)
+        ds = ds if ds is not None else mk_ds(c); dist = ds.demand_distribution; d = Decl(c)
         mean, sd = ds.mean, ds.standard_deviation
         dm, dsd = float(dist.mean()), float(dist.std())
     except Exception as e:
@@ -543,13 +543,13 @@ def check_reported(chk, c):
         if not close(a, w, rel=1e-8, abs_=1e-10): chk.fail(site + 'cdf!=declared', 'cdf(%r) = %r, declared distribution has %r' % (x, a, w), c); break
 
 
-def check_ltd(chk, c, with_var=True):
+def check_ltd(chk, c, with_var=True, ds=None):
     """lead_time_demand_distribution(L) vs an independent L-fold convolution"""
     t = c['type']; L = c['L']; p = c['params']; d = Decl(c); site = 'lead_time_demand_distribution|%s|' % t
     try:
         with warnings.catch_warnings():
             warnings.simplefilter('ignore')
-            ltd = mk_ds(c).lead_time_demand_distribution(L)
+            ltd = (ds if ds is not None else mk_ds(c)).lead_time_demand_distribution(L)
             mean = float(ltd.mean()); var = float(ltd.var()) if (with_var or t != 'UC') else None
     except Exception as e:
         chk.fail(site + 'raises-%s' % exc_kind(e), 'L=%r raises %s: %s' % (L, exc_kind(e), str(e)[:200]), c); return None
@@ -683,9 +683,98 @@ def oracle_reported_and_ltd(chk, nper, lmax, do_model=True):
             chk.mismatch('Coq conv_pow model (offset %s, %d points, mean %s) vs lead_time_demand_distribution (mean %r)' % (off, len(pmf), float(mm), float(ltd.mean())), cl)
 
 
+def vary_params(rng, t, p):
+    """another parameter set of the same type that REUSES part of p (same demand_list / lo / n / mean ...) and changes the rest"""
+    q = dict(p)
+    if t == 'CD':
+        k = len(p['demand_list'])
+        if k == 1: return q
+        while True:
+            cuts = sorted(rng.randint(0, 64) for _ in range(k - 1)); ps = [(b - a) / 64 for a, b in zip([0] + cuts, cuts + [64])]
+            if ps != p['probabilities']: break
+        q['probabilities'] = ps
+        if rng.random() < 0.25: q['demand_list'] = list(reversed(p['demand_list']))        # same set of values, other order
+    elif t in ('UD', 'UC'):
+        if rng.random() < 0.5: q['hi'] = p['hi'] + rng.randint(1, 4)
+        else: q['lo'] = max(0, p['lo'] - rng.randint(1, 3)) if p['lo'] >= 1 else p['lo']; q['hi'] = p['hi'] + (1 if q['lo'] == p['lo'] else 0)
+    elif t == 'NB':
+        if rng.random() < 0.5: q['p'] = min(0.9, max(0.25, round(p['p'] + rng.choice([-0.125, 0.125, 0.25]), 3)))
+        else: q['n'] = p['n'] + rng.randint(1, 3)
+        if q == p: q['n'] = p['n'] + 1
+    elif t == 'N':
+        if rng.random() < 0.5: q['standard_deviation'] = p['standard_deviation'] + _dy(rng, 0.25, 3, 4)
+        else: q['mean'] = p['mean'] + _dy(rng, 0.25, 5, 4)
+    elif t == 'P':
+        q['mean'] = p['mean'] + _dy(rng, 0.25, 5, 4)
+    return q
+
+
+def gen_sequence(rng, lmax):
+    t = rng.choice(['CD', 'CD', 'CD', 'UD', 'UC', 'NB', 'N', 'P'])
+    p = gen_params(rng, t, True)
+    if t == 'CD' and len(p['demand_list']) < 2: p = dict(demand_list=[0, 1, 2], probabilities=[0.5, 0.25, 0.25])
+    if t == 'NB' and p['p'] < 0.25: p['p'] = 0.25
+    L = rng.randint(1, lmax)
+    steps = [dict(params=p, L=L)]
+    for _ in range(rng.randint(1, 4)):
+        r = rng.random(); last = steps[-1]
+        if r < 0.6: steps.append(dict(params=vary_params(rng, t, last['params']), L=last['L']))      # same L, overlapping parameters
+        elif r < 0.75: steps.append(dict(params=last['params'], L=rng.randint(1, lmax)))             # same parameters, other L
+        elif r < 0.9: steps.append(dict(params=steps[0]['params'], L=steps[0]['L']))                 # back to the first query
+        else: steps.append(dict(params=last['params'], L=last['L']))                                 # identical repeat
+    return dict(kind='ltdseq', type=t, inplace=rng.random() < 0.5, steps=steps)
+
+
+def check_sequence(chk, c):
+    """several lead-time / mean / sd / cdf queries in ONE process, on one object mutated in place or on fresh objects that share
+    parameters: every answer must still be that of the parameters current at the time of the query"""
+    t = c['type']; ds = None
+    for k, st in enumerate(c['steps']):
+        sc = dict(kind='ltd', type=t, params=st['params'], L=st['L'])
+        if c['inplace']:
+            if ds is None: ds = mk_ds(sc)
+            else:
+                for key, v in st['params'].items(): setattr(ds, key, v)
+            obj = ds
+        else:
+            obj = mk_ds(sc)
+        n0 = len(chk.fails)
+        check_ltd(chk, sc, with_var=(t != 'UC'), ds=obj)
+        check_reported(chk, sc, ds=obj)
+        for i in range(n0, len(chk.fails)):
+            sig, what, _ = chk.fails[i]
+            chk.fails[i] = (sig + ('|after-earlier-queries' if k > 0 else ''), 'query %d of the sequence (%s, parameters %r, L=%r): %s'
+                            % (k, 'same object, attributes reassigned' if c['inplace'] else 'fresh DemandSource objects', st['params'], st['L'], what), jsonable(c))
+        if len(chk.fails) > n0: break
+
+
+def oracle_sequences(chk, n, lmax):
+    for i in range(n):
+        c = gen_sequence(chk.rng, lmax)
+        if i == 0: c = dict(kind='ltdseq', type='CD', inplace=False, steps=[dict(params=dict(demand_list=[0, 1, 2], probabilities=[0.125, 0.25, 0.625]), L=3),
+                                                                         dict(params=dict(demand_list=[0, 1, 2], probabilities=[0.625, 0.25, 0.125]), L=3)])
+        chk.count('ltdseq type=%s inplace=%s' % (c['type'], c['inplace']))
+        check_sequence(chk, c)
+        chk.case(c, len(c['steps']) >= 2, key='ltdseq|' + json.dumps(jsonable(c), sort_keys=True))
+
+
 def gen_probvec(rng):
-    k = rng.randint(1, 12); kind = rng.choice(['decimal', 'normalised', 'equal', 'thirds'])
-    if kind == 'equal': k = rng.randint(1, 30); return [1 / k] * k, kind
+    k = rng.randint(1, 12); kind = rng.choice(['decimal', 'normalised', 'equal', 'thirds', 'long-normalised', 'long-normalised', 'scipy-pmf', 'perturbed'])
+    if kind == 'equal': k = rng.randint(1, 100); return [1 / k] * k, kind
+    if kind == 'long-normalised':
+        k = rng.randint(20, 100); w = np.array([rng.random() ** rng.choice([1, 3]) for _ in range(k)])
+        return [float(x) for x in (w / w.sum())], kind
+    if kind == 'scipy-pmf':
+        import scipy.stats as ss
+        which = rng.choice(['binom', 'poisson', 'nbinom', 'hypergeom'])
+        if which == 'binom': n = rng.randint(2, 40); return [float(x) for x in ss.binom(n, rng.choice([0.1, 0.3, 0.5, 0.7, 0.9])).pmf(range(n + 1))], kind + ':binom'
+        if which == 'hypergeom': M = rng.randint(10, 40); n = rng.randint(1, M - 1); N = rng.randint(1, M - 1); return [float(x) for x in ss.hypergeom(M, n, N).pmf(range(0, min(n, N) + 1))], kind + ':hypergeom'
+        pm = (ss.poisson(rng.choice([0.5, 2.0, 7.5])) if which == 'poisson' else ss.nbinom(rng.randint(1, 5), rng.choice([0.3, 0.5, 0.7]))).pmf(range(0, rng.randint(30, 60)))
+        return [float(x) for x in pm / pm.sum()], kind + ':' + which + '-truncated-normalised'
+    if kind == 'perturbed':          # sum off one by 1e-13 .. 5e-10: still "one within 1e-9"
+        k = rng.randint(2, 30); w = np.array([rng.random() for _ in range(k)]); ps = [float(x) for x in (w / w.sum())]
+        j = max(range(k), key=lambda i: ps[i]); ps[j] += rng.choice([1, -1]) * rng.choice([1e-13, 1e-12, 1e-11, 1e-10, 5e-10])
+        return ps, kind
     if kind == 'thirds': return rng.choice([[0.7, 0.2, 0.1], [1 / 3, 1 / 3, 1 / 3], [0.1] * 10, [0.2] * 5, [1 / 7] * 7, [0.15, 0.35, 0.5], [0.3, 0.3, 0.3, 0.1], [1 / 6] * 6, [0.05] * 20]), kind
     if kind == 'decimal':
         d = 10 ** rng.randint(1, 4); cuts = sorted(rng.randint(0, d) for _ in range(k - 1))
@@ -718,7 +807,8 @@ def check_probvec(chk, c):
 
 def oracle_validate(chk, n):
     rng = chk.rng
-    fixed = [[0.7, 0.2, 0.1], [1 / 3, 1 / 3, 1 / 3], [0.1] * 10]
+    fixed = [[0.7, 0.2, 0.1], [1 / 3, 1 / 3, 1 / 3], [0.1] * 10, [1 / 63] * 63, [1 / 49] * 49, [1 / 93] * 93]
+    pv = chk.extra.setdefault('probability_vectors', {'accepted_stream': 0, 'of_which_float_sum_not_exactly_1': 0, 'of_which_2ulp_or_more_off': 0, 'max_abs_sum_minus_1': 0.0, 'rejected_stream': 0})
     for i in range(n):
         ps, kind = (fixed[i], 'named') if i < len(fixed) else gen_probvec(rng)
         good = i < len(fixed) or rng.random() < 0.75
@@ -727,7 +817,14 @@ def oracle_validate(chk, n):
             ps = list(ps); ps[j] = ps[j] + delta
             if ps[j] < 0: ps[j] -= 2 * delta
         c = dict(kind='probvec', probabilities=ps, good=good, how=kind)
-        chk.count('probvec %s good=%s' % (kind, good))
+        dev = abs(float(np.sum(ps)) - 1)
+        if good:
+            assert dev <= 1e-9, (ps, dev)
+            pv['accepted_stream'] += 1; pv['of_which_float_sum_not_exactly_1'] += dev > 0; pv['of_which_2ulp_or_more_off'] += dev > 2.3e-16
+            pv['max_abs_sum_minus_1'] = max(pv['max_abs_sum_minus_1'], dev)
+        else:
+            pv['rejected_stream'] += 1
+        chk.count('probvec %s good=%s' % (kind.split(':')[0], good))
         check_probvec(chk, c)
         chk.case(c, float(np.sum(ps)) != 1.0 or any(F(q).denominator & (F(q).denominator - 1) for q in ps), key='probvec|' + json.dumps(ps))
     # other parameter guards: clearly invalid parameters must be rejected
@@ -934,7 +1031,8 @@ def run(chk):
     corr_markov(chk, 30 if quick else 300, 40 if quick else 80)
     corr_lists(chk, 60 if quick else 600)
     oracle_reported_and_ltd(chk, 6 if quick else 25, 4 if quick else 7)
-    oracle_validate(chk, 60 if quick else 1500)
+    oracle_validate(chk, 250 if quick else 3000)
+    oracle_sequences(chk, 40 if quick else 400, 4 if quick else 6)
     oracle_steady(chk, 30 if quick else 400)
     tests = Tests()
     stat_search(chk, 4 if quick else 12, 100000 if quick else 300000, tests)
@@ -942,6 +1040,7 @@ def run(chk):
         # directed search for a failing input of the property: oracle + statistics only, fresh seeds, larger samples
         oracle_reported_and_ltd(chk, 8 if quick else 30, 5, do_model=False)
         oracle_steady(chk, 60, do_model=False)
+        oracle_sequences(chk, 80, 5)
         corr_lists(chk, 120, do_model=False)
         stat_search(chk, 4 if quick else 8, 60000 if quick else 300000, tests)
 
@@ -962,6 +1061,7 @@ def replay(chk, rp):
     elif k == 'list': check_list_case(chk, c)
     elif k == 'reported': check_reported(chk, c)
     elif k == 'ltd': check_ltd(chk, c)
+    elif k == 'ltdseq': check_sequence(chk, c)
     elif k == 'probvec': check_probvec(chk, c)
     elif k == 'steady': check_steady(chk, c)
     else: print('unknown case kind %r' % k)
